@@ -29,6 +29,9 @@ pub struct Case {
     /// global indices of source reads that fail with another (non-retryable) error
     #[serde(default)]
     pub fail: Vec<usize>,
+    /// bytes removed from the end of each source (main, call, jump, rc): truncated input
+    #[serde(default)]
+    pub cut: Vec<usize>,
     #[serde(default)]
     pub max_calls: usize,
     #[serde(default)]
@@ -102,7 +105,7 @@ pub fn run_case(c: &Case) -> Value {
     let flags = c.flags.clone();
     let (s, norms) = bcj2_encode_with(&orig, |k, _| flags.get(k).copied().unwrap_or(0) != 0);
     let sh = Rc::new(Shared { ops: Cell::new(0), intr: c.intr.clone(), fail: c.fail.clone(), events: RefCell::new(Vec::new()), trace: c.trace });
-    let mk = |id: usize, data: &Vec<u8>| Bsrc { id, data: data.clone(), pos: 0, pat: c.chunks.get(id).cloned().unwrap_or_default(), n: 0, sh: sh.clone() };
+    let mk = |id: usize, data: &Vec<u8>| Bsrc { id, data: data[..data.len() - c.cut.get(id).copied().unwrap_or(0).min(data.len())].to_vec(), pos: 0, pat: c.chunks.get(id).cloned().unwrap_or_default(), n: 0, sh: sh.clone() };
     let inputs = vec![mk(0, &s.main), mk(1, &s.call), mk(2, &s.jump), mk(3, &s.rc)];
     let mut out = json!({"id": c.id, "n": orig.len(), "markers": s.markers, "converted": s.converted,
         "lens": [s.main.len(), s.call.len(), s.jump.len(), s.rc.len()],
